@@ -169,7 +169,23 @@ pub fn check_rtt(c: &RttCase, st: &mut Stats) -> Result<(), String> {
             }
         }
         if t.lost {
-            // never answered: left to the timers (drained at the end); counts as no sample
+            // never answered; counts as no sample.  Either it is simply left behind, or (odd kinds, nothing else in
+            // flight) the timers are driven until the client reports its final failure: a transaction that timed out
+            // neither feeds nor resets the estimator
+            if t.kind % 2 == 1 && pending.is_empty() {
+                let mut guard_n = 0;
+                while sim.reqs[i].fin.is_none() && guard_n < 64 {
+                    guard_n += 1;
+                    let f = sim.step(&Op::Timer(TimerKind::Exact));
+                    if let Some(t) = foreign(f) {
+                        st.class(&format!("diverged-outside-focus:{}", t));
+                        return Ok(());
+                    }
+                }
+                if sim.reqs[i].fin.is_some() {
+                    st.class("has-request-driven-to-its-final-time-out");
+                }
+            }
             continue;
         }
         if t.overlap {
@@ -265,6 +281,9 @@ pub fn arb_case(max: usize) -> BoxedStrategy<RttCase> {
                 1 => Just(599_999_999_999u64),
                 1 => (601u64..=1_000).prop_map(|s| s * 1_000_000_000),
                 1 => (1u64..600).prop_map(|s| s * 1_000_000_000),
+                // just below the limit: with retransmissions or a response time in between, the time since the previous
+                // REQUEST exceeds 600 s while the time since the last packet does not
+                1 => (590_000u64..600_000).prop_map(|ms| ms * 1_000_000),
             ];
             // response delays: generic ones plus values in a special relation to the configuration (RTO/3 makes the
             // first computed RTO equal the configured one; RTO - G does so when 2R < G; G/2, G, RTO, RTO/2 sit on the
